@@ -38,7 +38,7 @@ def _mon_chunk(args):
 
 def search(ctx, deep):
     r = random.Random(ctx.seed * 29 + 4)
-    n = (240 if ctx.tier == "quick" else 800) * (3 if deep else 1)
+    n = (240 if ctx.tier == "quick" else 2500) * (3 if deep else 1)
     texts = [tl.render_prog(c) for c in rule_cases(ctx.seed * 31 + 2, n)]
     # formulas in bodies and heads
     for i in range(n // 2):
